@@ -384,10 +384,15 @@ def compare(ctx, res):
         if panic_seq and structural & set(fields):
             props.add("C16")
         start = seq_of(ops, i)
-        if start in seen_seq:
-            continue  # one report per sequence: later lines follow from the first divergence
-        seen_seq.add(start)
-        out.append({"line": i, "fields": sorted(fields), "props": props, "ops": ops[i], "obs": obs[i], "pred": pred[i], "start": start})
+        # per sequence, the first disagreement that concerns each property (later lines of the same
+        # sequence may merely follow from an earlier divergence, but the driver re-synchronises the
+        # table shape from the hints, so a property can also be hit first by a later line)
+        newp = {q for q in props if (start, q) not in seen_seq}
+        if not newp:
+            continue
+        for q in newp:
+            seen_seq.add((start, q))
+        out.append({"line": i, "fields": sorted(fields), "props": newp, "ops": ops[i], "obs": obs[i], "pred": pred[i], "start": start})
     return out
 
 
